@@ -697,7 +697,8 @@ def _work(item):
         raise AssertionError(f"inconsistent partial solution enumerated: {sig}")
     dom = {v for v, _ in sig}
     cnt = dict(n=0, nontrivial=0, ok=0, none=0, exp_ok=0, exp_fail=0, exp_either=0,
-               either_accepted=0, either_rejected=0, cyclic=0, cyclic_empty_sigma=0)
+               either_accepted=0, either_rejected=0, cyclic=0, cyclic_empty_sigma=0,
+               nonterminating_empty_sigma=0)
     cyc_ex = [None]
     viol = {}
     samples = []
@@ -717,6 +718,8 @@ def _work(item):
             cnt["exp_" + e] += 1
             if e == "either":
                 cnt["either_accepted" if info["impl"] == "subst" else "either_rejected"] += 1
+        if info.get("impl") == "recursion" and not sig:
+            cnt["nonterminating_empty_sigma"] += 1
         if info.get("cyclic"):
             cnt["cyclic"] += 1
             if not sig:
@@ -837,6 +840,7 @@ def run(ctx):
         "cyclic_results": tot["cyclic"],
         "cyclic_results_with_empty_partial_solution": tot["cyclic_empty_sigma"],
         "cyclic_example_with_empty_partial_solution": cyc_example,
+        "nonterminating_calls_with_empty_partial_solution": tot["nonterminating_empty_sigma"],
         "violation_classes": len(merged),
         "exhaustive": True,
     }
